@@ -738,6 +738,8 @@ def build_pipeline_inspection(
             for name in required_params
             if name not in key_origin or name in deleted_keys
         )
+        # Keys deleted by an earlier node cannot be resolved by this node.
+        missing_deleted = required_params & deleted_keys
 
         required_external_parameters: List[str] = []
         required_hook = getattr(
@@ -791,7 +793,6 @@ def build_pipeline_inspection(
             deleted_keys.update(suppressed_keys)
 
         # Validate parameter availability against deleted keys
-        missing_deleted = (required_params & deleted_keys) - suppressed_keys
         if missing_deleted - set(config_params.keys()):
             node_errors.append(
                 f"Node {index} requires context keys previously deleted: {sorted(missing_deleted)}"
